@@ -190,6 +190,7 @@ class Generator:
         self.fns = []          # records of functions under contract
         self.structs = []
         self.cur_mod = []
+        self.pending_free = []
 
     def count(self, rule, n=1):
         self.rewrites[rule] = self.rewrites.get(rule, 0) + n
@@ -220,6 +221,15 @@ class Generator:
             elif s.startswith("//@fn ") or s.startswith("//@sig "):
                 spec, i = self.parse_fn_block(lines, i, path)
                 self.emit_fn(spec)
+            elif s == "//@emit-free":
+                for lines, rec in self.pending_free:
+                    rec["gen_line"] = len(self.out) + 1
+                    for ln, org in lines:
+                        self.out.append((ln, org))
+                    rec["gen_end"] = len(self.out)
+                    self.fns.append(rec)
+                self.pending_free = []
+                i += 1
             elif s.startswith("//@const "):
                 parts = s.split()
                 self.emit_const(parts[1], parts[2])
@@ -360,6 +370,45 @@ class Generator:
 
     # ------------------------------------------------------------------
     def emit_fn(self, spec):
+        if spec.opts.get("free") and not getattr(spec, "_is_free_copy", False):
+            return self.emit_fn_with_free_twin(spec)
+        return self.emit_fn_inner(spec)
+
+    def emit_fn_with_free_twin(self, spec):
+        """R16: a trait default body is verified as a free generic function over an arbitrary
+        implementor (`self` -> `self_`, `Self` -> `X`); the in-trait copy keeps the same contract
+        and is marked external_body (discharged by the twin)."""
+        import copy
+        # (a) in-trait copy, assumed
+        intrait = copy.copy(spec)
+        intrait.opts = dict(spec.opts)
+        intrait.opts.pop("free")
+        at = intrait.opts.get("attrs")
+        intrait.opts["attrs"] = (at + "," if at else "") + "verifier::external_body"
+        intrait._is_free_copy = True
+        # the in-trait copy needs no hints
+        intrait.entry, intrait.loops, intrait.before, intrait.after, intrait.tail = [], {}, [], [], []
+        n0 = len(self.fns)
+        self.emit_fn_inner(intrait)
+        self.fns[n0]["assumed"] = True
+        self.fns[n0]["discharged_by_twin"] = spec.opts["free"]
+        # (b) free twin: render into a private buffer
+        twin = copy.copy(spec)
+        twin.opts = dict(spec.opts)
+        twin._is_free_copy = True
+        twin._free_name = spec.opts["free"]
+        saved_out, saved_fns = self.out, self.fns
+        self.out, self.fns = [], []
+        self.emit_fn_inner(twin)
+        lines, recs = self.out, self.fns
+        self.out, self.fns = saved_out, saved_fns
+        rec = recs[0]
+        rec["twin_of"] = "%s|%s|%s" % (spec.file, spec.container, spec.name)
+        rec["free_name"] = spec.opts["free"]
+        self.pending_free.append((lines, rec))
+        self.count("R16-default-body-as-free-fn")
+
+    def emit_fn_inner(self, spec):
         sf, it = self.repo.find_fn(spec.file, spec.container, spec.name)
         rec = {"name": spec.name, "container": spec.container, "file": spec.file,
                "line": it.line, "module": "::".join(self.cur_mod), "sig_only": spec.sig_only,
@@ -373,8 +422,15 @@ class Generator:
             for a in attrs.split(","):
                 self.emit("#[%s]" % a)
         self.out.append((sig, (spec.file, it.line)))
+        is_free = bool(getattr(spec, "_free_name", None))
+
+        def fr(text):
+            if not is_free:
+                return text
+            text = re.sub(r"\bself\b", "self_", text)
+            return re.sub(r"\bSelf\b", "X", text)
         for ln in spec.contract:
-            self.emit(ln)
+            self.emit(fr(ln))
         if it.body_open is None or spec.sig_only:
             if it.body_open is not None and not spec.sig_only:
                 pass
@@ -387,6 +443,21 @@ class Generator:
         b = sf.ct[it.body_close].start
         body = [Tok(t.kind, t.text, t.start, t.end, t.line) for t in sf.toks
                 if t.start >= a and t.end <= b and t.kind != "doc"]
+        if is_free:
+            for t in body:
+                if t.kind == "ident" and t.text == "self":
+                    t.text = "self_"
+                elif t.kind == "ident" and t.text == "Self":
+                    t.text = "X"
+            spec.entry = [fr(x) for x in spec.entry]
+            spec.tail = [fr(x) for x in spec.tail]
+            spec.loops = {k: (fl, [fr(x) for x in ls]) for k, (fl, ls) in spec.loops.items()}
+            spec.before = [(k, fr(pt), [fr(x) for x in ls]) for (k, pt, ls) in spec.before]
+            spec.after = [(k, fr(pt), [fr(x) for x in ls]) for (k, pt, ls) in spec.after]
+            spec.replace = [(k, fr(pt), [fr(x) for x in ls]) for (k, pt, ls) in spec.replace]
+            spec.calls = [(k, fn_, [fr(x) for x in ls]) for (k, fn_, ls) in spec.calls]
+            if spec.valid:
+                spec.valid = fr(spec.valid)
         body = self.rewrite_body(body, spec, rec)
         self.emit("{")
         pre = self.param_prologue(header, spec)
@@ -505,6 +576,29 @@ class Generator:
         else:
             rest_txt = tight(rest_txt)
         head = tight(norm_tokens(toks[:p]))
+        free_name = getattr(spec, "_free_name", None)
+        if free_name:
+            # trait name and parameters from the container header:  pub trait Name<T> : ...
+            m = re.match(r"(?:pub\s+)?trait\s+(\w+)\s*(<[^>]*>)?", norm_text(spec.container).replace(" ", "").replace("pubtrait", "pub trait ").replace("trait", "trait ", 1) if False else tight(norm_text(spec.container)))
+            tname, tparams = m.group(1), (m.group(2) or "")
+            own = ""
+            mg = re.match(r"^(.*?\bfn\s+\w+)\s*(<.*>)?$", head)
+            if mg and mg.group(2):
+                own = ", " + mg.group(2)[1:-1]
+            tp = tparams[1:-1] if tparams else ""
+            head = "fn %s<%s%sX: %s%s%s>" % (free_name, tp, ", " if tp else "", tname, tparams, own)
+            fixed = []
+            for x in newparams:
+                t = tight(x)
+                if t in ("&mut self", "& mut self"):
+                    fixed.append("self_: &mut X")
+                elif t in ("&self", "& self"):
+                    fixed.append("self_: &X")
+                elif t == "self":
+                    fixed.append("self_: X")
+                else:
+                    fixed.append(x)
+            newparams = fixed
         head, nvis = re.subn(r"^pub\s*\(\s*super\s*\)\s*", "pub(crate) ", head)
         if nvis:
             self.count("R0-pub(super)", nvis)
@@ -537,11 +631,12 @@ class Generator:
             body = self.apply_call(body, k, fname, lines, spec)
         for k, pat, lines in spec.replace:
             body = self.apply_replace(body, k, pat, lines, spec)
-        body = self.apply_loops(body, spec)
+        # hints are anchored on the original statements, so they go in before loops are desugared
         for k, pat, lines in spec.before:
             body = self.apply_hint(body, k, pat, lines, spec, before=True)
         for k, pat, lines in spec.after:
             body = self.apply_hint(body, k, pat, lines, spec, before=False)
+        body = self.apply_loops(body, spec)
         return body
 
     def rw_macros(self, body, spec):
@@ -799,9 +894,17 @@ class Generator:
                 expr = text_of(hdr[cut + 1:]).strip()
                 itn = flags["desugar"]
                 nxt = flags.get("next", "next")
-                pre = synth("{ let mut %s = %s; loop\n%s\n{ match %s.%s() { Some(%s) => {" % (itn, expr, inv, itn, nxt, pat), body[i].line)
+                # lines before a `---` separator are ghost statements placed between the `let` and the loop
+                postlet = ""
+                if "\n---\n" in "\n" + inv + "\n":
+                    postlet, inv = ("\n" + inv).split("\n---\n", 1)
+                # lines after a `+++` separator are placed after the loop, still inside the block that owns `it`
+                afterloop = ""
+                if "\n+++\n" in inv + "\n":
+                    inv, afterloop = (inv + "\n").split("\n+++\n", 1)
+                pre = synth("{ let mut %s = %s;%s\nloop\n%s\n{ match %s.%s() { Some(%s) => {" % (itn, expr, postlet, inv, itn, nxt, pat), body[i].line)
                 pre.kind = "synthhint"
-                post = synth("} None => { break; } } } }", body[q].line)
+                post = synth("} None => { break; } } }\n%s }" % afterloop, body[q].line)
                 body = body[:i] + [pre] + body[j + 1:q] + [post] + body[q + 1:]
                 self.count("R6-for-desugar")
             else:
